@@ -528,9 +528,10 @@ func decryptAll(c *mon.Case, euk *sm9.EncryptPrivateKey, uid []byte, m ref.Mode,
 		if m == ref.XOR {
 			eps = append(eps, ep{"Decrypt(nil opts)", func() ([]byte, error) { return sm9.Decrypt(euk, uid, ct, nil) }})
 		}
-		// priv.Decrypt treats anything that parses as one DER SEQUENCE as ASN.1; a raw
-		// ciphertext starting with 0x30 may (rarely) do so - not part of the property
-		if len(uid) > 0 && ct[0] != 0x30 {
+		// priv.Decrypt is specified to read input that is exactly one DER SEQUENCE as ASN.1; a raw
+		// ciphertext can be one (header 30 + the length of the rest) - counted by c10.sniff, which
+		// constructs such ciphertexts, not part of the property
+		if len(uid) > 0 && !ref.IsOneSequence(ct) {
 			eps = append(eps, ep{"priv.Decrypt(DecrypterOptsWithUID{opts})", func() ([]byte, error) {
 				o, err := sm9.NewDecrypterOptsWithUID(opts, uid)
 				if err != nil {
